@@ -629,29 +629,7 @@ def path_provenance_ok(p, f, a, ro, pr):
     return False, "unrecognised path provenance %s" % show(e, 4)
 
 
-def zero_test(si, what):
-    """If the bool switch `si` decides `what == 0` (unsigned), return the truth value of its edge on which what == 0:
-    `x == 0` -> True, `x != 0` / `x > 0` / `0 < x` -> False, `x <= 0` / `x < 1` -> True, `x >= 1` -> False."""
-    if not si.is_bool:
-        return None
-    nf = cmp_nf(si.discr, True)
-    if not nf:
-        return None
-    op, a, b = nf[0], deep_strip(nf[1]), deep_strip(nf[2])
-    Z, ONE = ("const", "int", 0), ("const", "int", 1)
-    if op == "Eq" and {a, b} == {what, Z}:
-        return True
-    if op == "Ne" and {a, b} == {what, Z}:
-        return False
-    if op == "Lt" and a == Z and b == what:        # 0 < x
-        return False
-    if op == "Le" and a == what and b == Z:        # x <= 0
-        return True
-    if op == "Lt" and a == what and b == ONE:      # x < 1
-        return True
-    if op == "Le" and a == ONE and b == what:      # 1 <= x
-        return False
-    return None
+zero_test = q.zero_test
 
 
 def _count_guard_dominates_rotate(p):
